@@ -150,7 +150,9 @@ def _gen_check(rng):
     sb = script_mod.serialize(script)
     c = rng.random()
     control = bytearray(control)
-    if c < 0.2:
+    if c < 0.1:
+        control[0] ^= 1             # the parity bit of the output key alone
+    elif c < 0.2:
         control[rng.randrange(len(control))] ^= 1 << rng.randrange(8)
     elif c < 0.3:
         control += bytes(32 * rng.choice([1, 2]))
@@ -167,7 +169,7 @@ def _gen_check(rng):
 
 
 @contract("btclib.script.taproot.check_output_pubkey", gen=_gen_check, props="C12 C04 C19", both_arms=True, n_quick=200, n_thorough=5000,
-          rule="control blocks the library produced and their alterations: bit flips, truncation, extension, paths of 127/128/129 levels, altered script, altered output key")
+          rule="control blocks the library produced and their alterations: flipped parity bit, bit flips, truncation, extension, paths of 127/128/129 levels, altered script, altered output key")
 class CheckOutputPubkeyBounded:
     def raises_BTClibValueError(q, script, control):
         return ref.control_verifies(q, script, control) is None
